@@ -1994,7 +1994,12 @@ class Interp:
         if nm == 'atan2' and len(args) == 2 and is_num(args[0]) and is_num(args[1]):
             return X.fn('atan2', to_node(args[0]), to_node(args[1]))
         if nm == 'copysign' and len(args) == 2 and is_num(args[0]) and is_num(args[1]):
-            return X.fn('abs', to_node(args[0])) * X.fn('sign', to_node(args[1]))      # for a non-zero second argument (signed zeros are the class domain's business)
+            b_ = to_node(args[1])
+            cb_ = concrete(b_)
+            if cb_ is not None and not isinstance(cb_, complex):
+                return X.fn('abs', to_node(args[0])) * (X.const(-1) if cb_ < 0 else X.ONE)       # copysign(a, 0.0) is +|a| (the zero of a difference is +0.0)
+            # sign(b) away from zero; at b == 0 the sign bit decides, +0.0 for every zero that arithmetic produces: +|a| there (np.sign gives 0)
+            return X.fn('abs', to_node(args[0])) * X.add(X.fn('sign', b_), X.cmp('==', b_, X.ZERO))
         if nm in ('spherical_jn', 'spherical_yn') and args and isinstance(concrete(args[0]), int) and len(args) >= 2 and is_num(args[1]):
             dflag = kwargs.get('derivative', args[2] if len(args) > 2 else False)
             if dflag in (True, False, 0, 1):
@@ -2094,6 +2099,8 @@ class PathExplorer:
         """('open', None) for an arm with non-empty interior; ('equality', pins | None) for a measure-zero arm (x == 0, or the
         complement of |x| > 0): pins name the atoms that vanish there when that can be read off, else None (arm not decidable by PIT)."""
         from .regions import sign_of, NONNEG, NONPOS
+        if isinstance(v, Node) and v.op != 'cmp' and concrete(v) is None:
+            v = X.cmp('!=', v, X.ZERO)            # the truth value of a number: `if x:` is `if x != 0:`
         if not isinstance(v, Node) or v.op != 'cmp':
             return ('open', None)
         dlt = X.add(v.args[0], X.neg(v.args[1]))
